@@ -65,6 +65,19 @@ fn gen_pool_prio(g: &mut Rng, _tier: Tier) -> J {
 }
 
 pub const SLACK_NS: u64 = 100_000_000;
+/// added to every lateness bound of a run whose plan injects stall faults: a stalled thread (the one
+/// that notifies, the one that is notified) is late by up to the stall length, and that is the fault,
+/// not the runtime
+static STALL_SLACK_NS: std::sync::atomic::AtomicU64 = std::sync::atomic::AtomicU64::new(0);
+
+fn slack_ns() -> u64 {
+    SLACK_NS + STALL_SLACK_NS.load(std::sync::atomic::Ordering::SeqCst)
+}
+
+fn set_stall_slack(plan: &J) {
+    let extra = plan.get("sim").map_or(0, |s| if s.gu("stall_ppm") > 0 { 3 * s.gu("stall_max_ns") } else { 0 });
+    STALL_SLACK_NS.store(extra, std::sync::atomic::Ordering::SeqCst);
+}
 
 #[derive(Clone, Debug, Default)]
 pub struct TaskRec {
@@ -112,8 +125,13 @@ pub fn task_id_of(name: &str) -> u64 {
 }
 
 /// The program of one task, interpreted inside the task body.
+/// bumped whenever a task body starts, completes a step or ends: lets the quiet-period oracles tell a
+/// slow runtime (still making progress) from a stuck one
+pub static PROGRESS: std::sync::atomic::AtomicU64 = std::sync::atomic::AtomicU64::new(0);
+
 pub fn run_prog(i: usize, steps: &[J]) {
     for st in steps {
+        _ = PROGRESS.fetch_add(1, std::sync::atomic::Ordering::SeqCst);
         let a = st.arr();
         match a[0].s() {
             "suspend" => {
@@ -135,9 +153,56 @@ pub fn run_prog(i: usize, steps: &[J]) {
             }
             "work" => sim::cpu_work(a[1].u(), 200_000),
             "hsleep" => hooked_sleep_us(a[1].u()),
+            // a task that submits tasks itself (from inside an event loop): rt scenario only
+            "spawn" => {
+                for _ in 0..a[1].u() {
+                    spawn_child();
+                }
+            }
             _ => {}
         }
     }
+}
+
+/// children submitted by task bodies: CHILD_RUNS[k] = how often child k ran
+static CHILD_RUNS: StdMutex<Vec<u32>> = StdMutex::new(Vec::new());
+/// child k was accepted (submit returned a valid handle) before anybody asked for a stop
+static CHILD_MUST: StdMutex<Vec<bool>> = StdMutex::new(Vec::new());
+static RT_ACTIVE: std::sync::atomic::AtomicBool = std::sync::atomic::AtomicBool::new(false);
+
+fn spawn_child() {
+    use std::sync::atomic::Ordering::SeqCst;
+    if !RT_ACTIVE.load(SeqCst) || STOP_SEEN.load(SeqCst) {
+        return;
+    }
+    let k = {
+        let mut c = CHILD_RUNS.lock().unwrap_or_else(|e| e.into_inner());
+        c.push(0);
+        CHILD_MUST.lock().unwrap_or_else(|e| e.into_inner()).push(false);
+        c.len() - 1
+    };
+    probe("rt.spawn-from-task");
+    let h = open_coroutine_core::net::EventLoops::submit_task(
+        None,
+        move |_| {
+            let n = {
+                let mut c = CHILD_RUNS.lock().unwrap_or_else(|e| e.into_inner());
+                c[k] += 1;
+                c[k]
+            };
+            _ = PROGRESS.fetch_add(1, SeqCst);
+            if n > 1 {
+                fail("task-ran-twice", format!("child task {k} (submitted by a task) was started {n} times"));
+            }
+            Some(k)
+        },
+        None,
+        None,
+    );
+    let accepted = h.id().is_ok_and(|id| id != 0) && !STOP_SEEN.load(SeqCst);
+    CHILD_MUST.lock().unwrap_or_else(|e| e.into_inner())[k] = accepted;
+    // nobody joins the children
+    drop(h);
 }
 
 /// The closure handed to submit_task for task `i`.
@@ -175,6 +240,7 @@ pub fn make_body(i: usize, steps: Vec<J>, panics: bool, value: usize, who: fn() 
             r[i].end_ns = Some(now());
             r[i].finished = true;
         }
+        _ = PROGRESS.fetch_add(1, std::sync::atomic::Ordering::SeqCst);
 
         if panics {
             probe("task.panic");
@@ -325,6 +391,7 @@ static WAITS: StdMutex<Vec<WaitRec>> = StdMutex::new(Vec::new());
 
 fn body_pool(plan: &J) {
     use std::sync::atomic::Ordering::SeqCst;
+    set_stall_slack(plan);
     recs().clear();
     WAITS.lock().unwrap_or_else(|e| e.into_inner()).clear();
     *START_COUNTER.lock().unwrap_or_else(|e| e.into_inner()) = 0;
@@ -537,7 +604,7 @@ fn body_pool(plan: &J) {
                 if all_done && took > 1_000_000_000 {
                     fail("stop-slow", format!("every task had finished or been cancelled, yet stop(30 s) needed {} ms of simulated time", took / 1_000_000));
                 }
-                if took > 30_000_000_000 + SLACK_NS {
+                if took > 30_000_000_000 + slack_ns() {
                     fail("stop-slow", format!("stop(30 s) returned after {} ms", took / 1_000_000));
                 }
             }
@@ -632,7 +699,7 @@ fn body_pool(plan: &J) {
                     // prompt: not later than 100 ms after both the call and the task's end
                     if let Some(e) = t.end_ns {
                         let ready = e.max(w.call_ns);
-                        if ret > ready + SLACK_NS && !matches!(res, Err(m) if m.contains("pool has stopped")) {
+                        if ret > ready + slack_ns() && !matches!(res, Err(m) if m.contains("pool has stopped")) {
                             fail("wait-late", format!("wait on task {} returned {} ms after the task had finished (and the wait had begun); timeout {} ms", w.task, (ret - ready) / 1_000_000, w.timeout_ms));
                         }
                     }
@@ -648,11 +715,11 @@ fn body_pool(plan: &J) {
                 }
                 let deadline = w.call_ns.saturating_add(timeout_ns);
                 if let Some(e) = t.end_ns {
-                    if e + SLACK_NS < deadline && t.finished {
+                    if e + slack_ns() < deadline && t.finished {
                         fail("wait-timeout-spurious", format!("wait on task {} timed out (timeout {} ms) although the task had finished {} ms before the deadline", w.task, w.timeout_ms, (deadline - e) / 1_000_000));
                     }
                 }
-                if ret > deadline.saturating_add(SLACK_NS) {
+                if ret > deadline.saturating_add(slack_ns()) {
                     fail("wait-late", format!("wait on task {} with timeout {} ms returned {} ms after its deadline", w.task, w.timeout_ms, (ret - deadline) / 1_000_000));
                 }
             }
@@ -738,6 +805,13 @@ fn gen_rt(g: &mut Rng, tier: Tier) -> J {
             steps.push(J::Arr(vec!["hsleep".into(), (*g.pick(&[100u64, 1_000, 3_000, 12_000, 25_000])).into()]));
             t.set("steps", J::Arr(steps));
         }
+        if g.chance(1, 4) {
+            // tasks that submit tasks themselves, from inside an event loop
+            let mut steps = t.ga("steps").to_vec();
+            let at = g.below(steps.len() as u64 + 1) as usize;
+            steps.insert(at, J::Arr(vec!["spawn".into(), g.range(1, 6).into()]));
+            t.set("steps", J::Arr(steps));
+        }
         tasks.push(t);
     }
     let mut users: Vec<Vec<J>> = (0..nusers).map(|_| Vec::new()).collect();
@@ -764,8 +838,29 @@ fn gen_rt(g: &mut Rng, tier: Tier) -> J {
         }
     }
     let mut max = *g.pick(&[1u64, 2, 4, 16, 65536]);
-    let mode = *g.pick(&["normal", "normal", "normal", "early_stop", "cancel_parked"]);
+    let mode = *g.pick(&["normal", "normal", "normal", "early_stop", "cancel_parked", "join_race"]);
     let mut loops = loops;
+    if mode == "join_race" {
+        // a user that joins every task right after submitting it: the join races the completion
+        // (one loop: with several, every join of a task another loop ran costs its whole timeout -
+        // the recorded cross-loop finding - and the run would not end within its budget)
+        loops = 1;
+        let a = tasks.len();
+        let mut ops = Vec::new();
+        for k in 0..g.range(10, 40) as usize {
+            let mut steps = Vec::new();
+            if g.chance(1, 3) {
+                steps.push(J::Arr(vec!["work".into(), (*g.pick(&[1_000u64, 10_000, 60_000])).into()]));
+            }
+            tasks.push(obj! {"name" => format!("task-{}", a + k), "steps" => J::Arr(steps), "panics" => false, "prio" => 0});
+            ops.push(J::Arr(vec!["submit".into(), (a + k).into()]));
+            if g.chance(1, 3) {
+                ops.push(J::Arr(vec!["sleep".into(), (*g.pick(&[1_000u64, 20_000, 100_000])).into()]));
+            }
+            ops.push(J::Arr(vec!["wait".into(), (a + k).into(), 5_000u64.into()]));
+        }
+        users.push(ops);
+    }
     if mode == "cancel_parked" {
         // one loop, so that the parked task and the computing ones share a thread
         loops = 1;
@@ -876,6 +971,11 @@ impl open_coroutine_core::coroutine::listener::Listener<(), Option<usize>> for C
             use open_coroutine_core::common::constants::{CoroutineState, SyscallState};
             let me = std::thread::current().name().unwrap_or("?").to_string();
             let tag = local.get::<usize>("vtask").copied();
+            if let (Some(t), Ok(want)) = (tag, std::env::var("VSIM_TRACE_TASK")) {
+                if want.parse::<usize>().ok() == Some(t) {
+                    eprintln!("[trace task {t}] +{}us on {me}: -> {new:?}", (now() % 1_000_000_000_000) / 1000);
+                }
+            }
             let mut p = PARKED.lock().unwrap_or_else(|e| e.into_inner());
             match new {
                 CoroutineState::Running => {
@@ -919,6 +1019,7 @@ impl open_coroutine_core::coroutine::listener::Listener<(), Option<usize>> for C
 
 fn body_rt(plan: &J) {
     use std::sync::atomic::Ordering::SeqCst;
+    set_stall_slack(plan);
     recs().clear();
     WAITS.lock().unwrap_or_else(|e| e.into_inner()).clear();
     HANDLES.lock().unwrap_or_else(|e| e.into_inner()).clear();
@@ -944,6 +1045,9 @@ fn body_rt(plan: &J) {
     }
     let cfg = Config::new(loops, 64 * 1024, min, max, plan.gu("keep_alive_ns"), 0, 0, true);
     EventLoops::init(&cfg);
+    CHILD_RUNS.lock().unwrap_or_else(|e| e.into_inner()).clear();
+    CHILD_MUST.lock().unwrap_or_else(|e| e.into_inner()).clear();
+    RT_ACTIVE.store(true, SeqCst);
     spy_reset(tasks.len());
     EventLoops::verif_add_listener(CancelSpy);
     let nusers = plan.ga("users").len();
@@ -1056,7 +1160,26 @@ fn body_rt(plan: &J) {
         }
     }
     if !early_stop {
-        vstd::thread::sleep(Duration::from_secs(2));
+        // quiet period: until every accepted, never cancelled task has ended, but give up once no task
+        // body has made a step for two simulated seconds (stuck, not merely slow) or after a minute
+        let t_quiet = now();
+        let mut last = PROGRESS.load(SeqCst);
+        let mut last_change = now();
+        loop {
+            vstd::thread::sleep(Duration::from_millis(20));
+            let all_done = recs().iter().all(|t| t.submit_ok != Some(true) || t.cancelled_any || t.finished);
+            if all_done && now() - t_quiet >= 2_000_000_000 {
+                break;
+            }
+            let p = PROGRESS.load(SeqCst);
+            if p != last {
+                last = p;
+                last_change = now();
+            }
+            if now() - last_change > 2_000_000_000 || now() - t_quiet > 60_000_000_000 {
+                break;
+            }
+        }
     }
     // C01: every accepted task that nobody cancelled has run exactly once by now
     {
@@ -1065,11 +1188,24 @@ fn body_rt(plan: &J) {
             if !early_stop && t.submit_ok == Some(true) && !t.cancelled_any && (t.starts != 1 || !t.finished) {
                 let stats = EventLoops::verif_loop_stats();
                 let msg = format!(
-                    "task {i} (accepted, never cancelled) has starts={} finished={} two simulated seconds after the last submission, while the runtime keeps scheduling; loops (state, workers, queue empty): {stats:?}",
+                    "task {i} (accepted, never cancelled) has starts={} finished={} although no task body has made a step for two simulated seconds (or a minute has passed) since the last submission, while the runtime keeps scheduling; loops (state, workers, queue empty): {stats:?}",
                     t.starts, t.finished
                 );
                 drop(r);
                 fail("task-stranded", msg);
+            }
+        }
+        if !early_stop {
+            let c = CHILD_RUNS.lock().unwrap_or_else(|e| e.into_inner()).clone();
+            let must = CHILD_MUST.lock().unwrap_or_else(|e| e.into_inner()).clone();
+            if let Some(k) = c.iter().enumerate().position(|(k, n)| *n == 0 && must.get(k).copied().unwrap_or(false)) {
+                let stats = EventLoops::verif_loop_stats();
+                let msg = format!(
+                    "child task {k} of {} (submitted by a task running on an event loop, before anybody asked for a stop) never ran although no task body has made a step for two simulated seconds; loops (state, workers, queue empty): {stats:?}",
+                    c.len()
+                );
+                drop(r);
+                fail("task-lost", msg);
             }
         }
         if r.iter().any(|t| t.ran_on != usize::MAX && t.starts > 0) && loops > 1 {
@@ -1191,7 +1327,7 @@ fn check_waits(pool_level: bool) {
                     check_own_result(w.task, t, res, "join");
                     if let Some(e) = t.end_ns {
                         let ready = e.max(w.call_ns);
-                        if ret > ready + SLACK_NS && !matches!(res, Err(m) if m.contains("pool has stopped")) {
+                        if ret > ready + slack_ns() && !matches!(res, Err(m) if m.contains("pool has stopped")) {
                             fail("wait-late", format!("join on task {} returned {} ms after the task had finished (and the join had begun); timeout {} ms{where_}", w.task, (ret - ready) / 1_000_000, w.timeout_ms));
                         }
                     }
@@ -1206,11 +1342,11 @@ fn check_waits(pool_level: bool) {
                 }
                 let deadline = w.call_ns.saturating_add(timeout_ns);
                 if let Some(e) = t.end_ns {
-                    if e + SLACK_NS < deadline && t.finished {
+                    if e + slack_ns() < deadline && t.finished {
                         fail("wait-timeout-spurious", format!("join on task {} timed out (timeout {} ms) although the task had finished {} ms before the deadline{where_}", w.task, w.timeout_ms, (deadline - e) / 1_000_000));
                     }
                 }
-                if ret > deadline.saturating_add(SLACK_NS) {
+                if ret > deadline.saturating_add(slack_ns()) {
                     fail("wait-late", format!("join on task {} with timeout {} ms returned {} ms after its deadline", w.task, w.timeout_ms, (ret - deadline) / 1_000_000));
                 }
             }
